@@ -5,10 +5,64 @@ import ast
 
 from .core import rule
 from .model import AnalysisError, dotted, norm, walk_own
-from .paths import (Parents, guards_of, flat_guards, np_atom, strip_not, cmp_atom, swap_cmp, isinstance_atom,
+from .paths import (Parents, guards_of, flat_guards, flatten_guard, np_atom, strip_not, cmp_atom, swap_cmp, isinstance_atom,
                     enumerate_paths, decision_table, resolve_local, always_exits, eval3, handlers_of, inline_call)
 from .pat import has, find, first, name_of, match, _parse
 from .rules_t import validator_classes, class_keywords, kwonly, own_init, element_family
+
+
+from .norm import view, nbody, builders, find_builder, strings_reaching, path_signatures, View
+
+
+def V(ctx, func, keep=()):
+    return view(func, ctx.prog, keep)
+
+
+def matches_any(e, patterns):
+    for ptxt in patterns:
+        if match(_parse(ptxt), e) is not None:
+            return True
+    return False
+
+
+def atom_rec(specs):
+    """Recogniser for decision tables from expression patterns.
+    specs: {atom_name: [expression patterns]}.  A bare expression matching a
+    pattern is the atom's truthiness; `len(<expr>) == 0` etc. are mapped to
+    (atom, False) / ("<atom>#ONE", ...) / ("<atom>#MANY", ...)."""
+    def rec(e):
+        t, pol = strip_not(e)
+        for name, pats in specs.items():
+            if matches_any(t, pats):
+                return (name, pol)
+        c = cmp_atom(e)
+        if c:
+            left, op, right = c[3], c[1], c[2]
+            if isinstance(left, ast.Call) and dotted(left.func) == "len" and len(left.args) == 1:
+                for name, pats in specs.items():
+                    if matches_any(left.args[0], pats):
+                        if (op, right) in (("==", "0"), ("<", "1"), ("<=", "0")):
+                            return (name, False)
+                        if (op, right) in ((">", "0"), (">=", "1"), ("!=", "0")):
+                            return (name, True)
+                        if (op, right) in (("==", "1"),):
+                            return (name + "#ONE", True)
+                        if (op, right) in (("!=", "1"),):
+                            return (name + "#ONE", False)
+                        if (op, right) in ((">", "1"), (">=", "2")):
+                            return (name + "#MANY", True)
+                        if (op, right) in (("<=", "1"), ("<", "2")):
+                            return (name + "#MANY", False)
+        return None
+    return rec
+
+
+def calls_matching(stmts, pattern):
+    out = []
+    for st in stmts:
+        if isinstance(st, ast.AST):
+            out += find(pattern, st)
+    return out
 
 
 def _raises_validation(path):
@@ -50,7 +104,7 @@ def g1(ctx, res):
             raise AnalysisError(f"{cname}._validate vanished")
         v = f.params[1].name
         want = (subj.format(v=v), op, f"self.params[{kw!r}]")
-        paths = enumerate_paths(f.body)
+        paths = enumerate_paths(V(ctx, f).body)
         raising = [p for p in paths if _raises_validation(p)]
         other = [p for p in paths if not _raises_validation(p)]
         ok = False
@@ -63,7 +117,10 @@ def g1(ctx, res):
                 flipped = (got[2], swap_cmp(got[1]), got[0])
                 ok = got == want or flipped == want
         ok = ok and all(p.exit in ("fall", "return") for p in other)
-        res.check(ok, f, f"raise ValidationError iff {want[0]} {want[1]} {want[2]}", detail={"found": found},
+        verdict = ok
+        if not ok and not (found and found[0]):
+            verdict = None  # no single comparison recognised: cannot judge
+        res.judge(verdict, f, f"raise ValidationError iff {want[0]} {want[1]} {want[2]}", detail={"found": found},
                   reason="the rejecting comparison (operator and boundary) equals the Draft-6 definition of the keyword")
     # G1b AdditionalItems
     ai = ctx.cls("AdditionalItems").methods["_validate"]
@@ -89,14 +146,14 @@ def g1(ctx, res):
             return ("ADDL", pol)
         return None
 
-    table, opaque = decision_table(ai.body, ["ISLIST", "LONGER", "ADDL"], rec,
+    table, opaque = decision_table(V(ctx, ai).body, ["ISLIST", "LONGER", "ADDL"], rec,
                                    lambda p: "raise" if _raises_validation(p) else "accept")
-    good = not opaque
+    good = True
     for (islist, longer, addl), labels in table.items():
         want = {"raise"} if (islist and longer and not addl) else {"accept"}
         if labels != want:
             good = False
-    res.check(good, ai, "raise iff items is a list and len(value) > len(items) and not additionalItems",
+    res.judge(None if (opaque and good) else good, ai, "raise iff items is a list and len(value) > len(items) and not additionalItems",
               detail={"opaque": sorted(opaque), "table": {str(k): sorted(v) for k, v in table.items()}},
               reason="tuple items: values beyond the tuple are rejected exactly when additionalItems is false")
 
@@ -107,73 +164,175 @@ def g1c(ctx, res):
     rq = ctx.cls("Required").methods["_validate"]
     v = rq.params[1].name
     req = "self.params['required']"
-    spellings = [
-        f"if set({req}) - set({v}):\n    raise ValidationError",
-        f"if not set({req}) <= set({v}):\n    raise ValidationError",
-        f"if not set({req}).issubset({v}):\n    raise ValidationError",
-        f"if any(MV_r not in {v} for MV_r in {req}):\n    raise ValidationError",
-        f"if not all(MV_r in {v} for MV_r in {req}):\n    raise ValidationError",
-    ]
-    res.check(any(has(s, rq) for s in spellings) and len(rq.body) == 1 + (1 if ast.get_docstring(rq.node) else 0), rq,
-              "raise iff some required name is not a key of the value",
+    vb = V(ctx, rq)
+    missing_atoms = {"MISSING": [f"set({req}) - set({v})", f"set({req}).difference({v})", f"set({req}).difference(set({v}))",
+                                 f"any((MV_r not in {v} for MV_r in {req}))", f"[MV_r for MV_r in {req} if MV_r not in {v}]"],
+                     "ALLPRESENT": [f"set({req}) <= set({v})", f"set({req}).issubset({v})", f"set({req}).issubset(set({v}))",
+                                    f"all((MV_r in {v} for MV_r in {req}))", f"set({v}) >= set({req})",
+                                    f"set({v}).issuperset({req})"]}
+    rec0 = atom_rec(missing_atoms)
+
+    def rec(e):
+        r = rec0(e)
+        if r and r[0] == "ALLPRESENT":
+            return ("MISSING", not r[1])
+        return r
+    table, opaque = decision_table(vb.body, ["MISSING"], rec, lambda p: "raise" if _raises_validation(p) else "accept")
+    good = table == {(True,): {"raise"}, (False,): {"accept"}}
+    wrong_shapes = [f"set({req}) & set({v})", f"set({req}).intersection({v})", f"set({req}).isdisjoint({v})",
+                    f"any((MV_r in {v} for MV_r in {req}))", f"set({req}) == set({v})", f"set({req}) >= set({v})"]
+    if not good and any(has(w, vb.body) for w in wrong_shapes):
+        opaque = set()  # a recognised but different relation between required names and keys
+    res.judge(None if (opaque and not good) else good, rq, "raise iff some required name is not a key of the value",
+              detail={"opaque": sorted(opaque), "table": {str(k): sorted(x) for k, x in table.items()}},
               reason="required rejects exactly when a listed name is missing")
+
+    # Dependencies: per (key, dep) - key present & list => Required rule; key present & schema => schema must accept; absent => nothing
     dp = ctx.cls("Dependencies").methods["_validate"]
     v = dp.params[1].name
-    ok = False
-    for node, b in find("for MV_k, MV_d in self.params['dependencies'].items():\n    MV__\n    MV__", dp):
-        pass
-    loops = [n for n in walk_own(dp.body) if isinstance(n, ast.For)]
-    if len(loops) == 1:
+    vb = V(ctx, dp)
+    loops = [n for n in vb.body if isinstance(n, ast.For)]
+    verdict = None
+    detail = {}
+    if len(loops) == 1 and has("self.params['dependencies'].items()", loops[0].iter) and isinstance(loops[0].target, ast.Tuple) \
+            and len(loops[0].target.elts) == 2 and not loops[0].orelse:
         lp = loops[0]
-        okit = has("self.params['dependencies'].items()", lp.iter) and isinstance(lp.target, ast.Tuple) and len(lp.target.elts) == 2
-        if okit:
-            k, d = norm(lp.target.elts[0]), norm(lp.target.elts[1])
-            skip = has(f"if {k} not in {v}:\n    continue", lp.body)
-            lst = has(f"Required({d})._validate({v})", lp.body)
-            sch = has(f"self.validate_schema_dependency({d}, {v})", lp.body) or has(f"Dependencies.validate_schema_dependency({d}, {v})", lp.body)
-            isl = has(f"isinstance({d}, list)", lp.body)
-            n_exit = sum(1 for x in ast.walk(lp) if isinstance(x, (ast.Break, ast.Return, ast.Continue)))
-            ok = skip and lst and sch and isl and n_exit == 1
-    res.check(ok, dp, "for each dependency whose key is present: list => Required rule, schema => must validate",
+        k, d = norm(lp.target.elts[0]), norm(lp.target.elts[1])
+
+        def rec_d(e):
+            c = cmp_atom(e)
+            if c and c[0] == k and c[2] == v and c[1] in ("in", "not in"):
+                return ("PRESENT", c[1] == "in")
+            ia = isinstance_atom(e)
+            if ia and ia[0] == d and ia[1] == ["list"]:
+                return ("ISLIST", ia[2])
+            return None
+
+        def classify(p):
+            acts = set()
+            for st in p.stmts:
+                if isinstance(st, ast.AST):
+                    if has(f"Required({d})._validate({v})", st):
+                        acts.add("REQUIRED")
+                    if has(f"self.validate_schema_dependency({d}, {v})", st) or has(f"Dependencies.validate_schema_dependency({d}, {v})", st) \
+                            or has(f"type(self).validate_schema_dependency({d}, {v})", st):
+                        acts.add("SCHEMA")
+            if p.exit in ("return", "break", "raise"):
+                acts.add("EXIT:" + p.exit)
+            return "+".join(sorted(acts)) or "nothing"
+        table, opaque = decision_table(lp.body, ["PRESENT", "ISLIST"], rec_d, classify)
+        want = {(True, True): {"REQUIRED"}, (True, False): {"SCHEMA"}, (False, True): {"nothing"}, (False, False): {"nothing"}}
+        detail = {"opaque": sorted(opaque), "table": {str(kk): sorted(x) for kk, x in table.items()}}
+        verdict = (table == want) if not opaque or table != want and not opaque else (True if table == want else None)
+        if table != want and not opaque:
+            verdict = False
+        after = vb.body[vb.body.index(lp) + 1:]
+        if any(not isinstance(x, (ast.Return, ast.Pass)) for x in after) or any(isinstance(x, ast.Return) and x.value is not None for x in after):
+            verdict = None if verdict else verdict
+    res.judge(verdict, dp, "for each dependency whose key is present: list => Required rule, schema => must validate", detail=detail,
               reason="a dependency applies exactly when its key is in the value; every dependency is visited")
     vs = ctx.func("Dependencies.validate_schema_dependency")
-    res.check(_try_reject(vs, call_pat="MV_d(MV_v)", handler=["TypeError", "ValidationError"], on_fail="raise"), vs,
+    res.judge(_try_semantics(ctx, vs, call_pats=["MV_d(MV_v)"], on_success={"fall", "return"}, on_failure={"raise"}), vs,
               "try: dependency(value) except (TypeError, ValidationError): raise ValidationError",
               reason="a schema dependency rejects exactly when the dependent schema rejects the whole value")
+
     ct = ctx.cls("Contains").methods["_validate"]
     v = ct.params[1].name
-    ok = False
-    loops = [n for n in walk_own(ct.body) if isinstance(n, ast.For)]
-    if len(loops) == 1 and norm(loops[0].iter) == v and not loops[0].orelse:
-        lp = loops[0]
-        sv = norm(lp.target)
-        tries = [x for x in lp.body if isinstance(x, ast.Try)]
-        if len(tries) == 1 and len(lp.body) == 1:
-            t = tries[0]
-            calls = has(f"self.params['contains']({sv})", t.body)
-            ret_in_try = any(isinstance(x, ast.Return) for x in t.body + t.orelse)
-            hs = t.handlers
-            okh = len(hs) == 1 and exc_handler_names(hs[0]) == ["TypeError", "ValidationError"] and \
-                all(isinstance(x, (ast.Continue, ast.Pass)) for x in hs[0].body)
-            after = ct.body[ct.body.index(lp) + 1:] if lp in ct.body else []
-            ok = calls and ret_in_try and okh and len(after) == 1 and isinstance(after[0], ast.Raise)
-    res.check(ok, ct, "accept at the first member the schema accepts; reject when none is",
+    res.judge(_loop_try_semantics(ctx, ct, v, "self.params['contains']({x})", success="return", failure="next", exhausted="raise"), ct,
+              "accept at the first member the schema accepts; reject when none is",
               reason="contains rejects exactly when no member validates")
     pn = ctx.cls("PropertyNames").methods["_validate"]
     v = pn.params[1].name
-    ok = False
-    loops = [n for n in walk_own(pn.body) if isinstance(n, ast.For)]
-    if len(loops) == 1 and norm(loops[0].iter) in (v, f"{v}.keys()", f"list({v})"):
-        lp = loops[0]
-        sv = norm(lp.target)
-        tries = [x for x in lp.body if isinstance(x, ast.Try)]
-        if len(tries) == 1 and len(lp.body) == 1:
-            t = tries[0]
-            ok = has(f"self.params['propertyNames']({sv})", t.body) and len(t.handlers) == 1 and \
-                exc_handler_names(t.handlers[0]) == ["TypeError", "ValidationError"] and \
-                any(isinstance(x, ast.Raise) for x in t.handlers[0].body) and \
-                not any(isinstance(x, (ast.Break, ast.Return, ast.Continue)) for x in ast.walk(lp))
-    res.check(ok, pn, "every key must validate against propertyNames", reason="propertyNames rejects exactly when some key is rejected")
+    res.judge(_loop_try_semantics(ctx, pn, v, "self.params['propertyNames']({x})", success="next", failure="raise", exhausted="accept"), pn,
+              "every key must validate against propertyNames", reason="propertyNames rejects exactly when some key is rejected")
+
+
+REJECTION = ["TypeError", "ValidationError"]
+
+
+def _path_events(p, call_pats):
+    """('CALL' if the guarded call is on the path, 'HANDLER:<types>' markers)"""
+    evs = []
+    for st in p.stmts:
+        if isinstance(st, tuple) and st[0] == "handler":
+            evs.append("HANDLER:" + ",".join(exc_handler_names(st[1])))
+        elif isinstance(st, tuple) and st[0] == "try":
+            evs.append("TRY")
+        elif isinstance(st, ast.AST):
+            if any(has(cp, st) for cp in call_pats):
+                evs.append("CALL")
+    return evs
+
+
+def _try_semantics(ctx, func, call_pats, on_success, on_failure, body=None, success_ret=None, failure_ret=None):
+    """The call runs inside a try whose only handler catches exactly
+    (TypeError, ValidationError); when it returns normally the path ends in
+    one of `on_success`; when it is rejected the handler path ends in one of
+    `on_failure`.  True / False / None (unrecognised)."""
+    vb = body if body is not None else V(ctx, func).body
+    paths = enumerate_paths(vb)
+    saw_call = saw_handler = False
+    for p in paths:
+        evs = _path_events(p, call_pats)
+        handlers = [e for e in evs if e.startswith("HANDLER:")]
+        if handlers:
+            saw_handler = True
+            if handlers != ["HANDLER:" + ",".join(sorted(REJECTION))]:
+                return False
+            if _exit_label(p) not in on_failure:
+                return False
+            if failure_ret is not None and p.exit == "return" and not failure_ret(p.exit_node.value, [st[1] for st in p.stmts if isinstance(st, tuple) and st[0] == "handler"][0]):
+                return False
+        elif "CALL" in evs:
+            saw_call = True
+            if "TRY" not in evs[: evs.index("CALL") + 1]:
+                return False  # the call is not protected
+            if _exit_label(p) not in on_success:
+                return False
+            if success_ret is not None and p.exit == "return" and not success_ret(p.exit_node.value):
+                return False
+    if not saw_call or not saw_handler:
+        return None
+    return True
+
+
+def _exit_label(p):
+    if p.exit == "raise":
+        return "raise" if (p.exit_node is None or p.exit_node.exc is None or "ValidationError" in norm(p.exit_node)) else "raise-other"
+    return p.exit
+
+
+def _loop_try_semantics(ctx, func, value, call_tmpl, success, failure, exhausted):
+    """One loop over the value; per member a protected call.
+    success / failure in {"return", "next", "raise"}: what happens to the
+    function when the member is accepted / rejected; exhausted: "raise" or
+    "accept" when the loop runs out."""
+    vb = V(ctx, func).body
+    loops = [n for n in vb if isinstance(n, ast.For)]
+    if len(loops) != 1:
+        return None
+    lp = loops[0]
+    if norm(lp.iter) not in (value, f"{value}.keys()", f"list({value})", f"iter({value})"):
+        return None
+    x = norm(lp.target)
+    call_pat = call_tmpl.format(x=x)
+    want_s = {"return": {"return"}, "next": {"fall", "continue"}, "raise": {"raise"}}[success]
+    want_f = {"return": {"return"}, "next": {"fall", "continue"}, "raise": {"raise"}}[failure]
+    r = _try_semantics(ctx, func, [call_pat], want_s, want_f, body=lp.body)
+    if r is not True:
+        return r
+    if any(isinstance(n, ast.Break) for n in ast.walk(lp)):
+        return None
+    after = vb[vb.index(lp) + 1:] + []
+    tail = list(lp.orelse) + after
+    ends = _paths_exits(tail)
+    if exhausted == "raise":
+        return ends == {"raise"}
+    return ends <= {"fall", "return"}
+
+
+def _paths_exits(stmts):
+    return {_exit_label(p) for p in enumerate_paths(stmts)} if stmts else {"fall"}
 
 
 def _try_reject(func, call_pat, handler, on_fail):
@@ -276,9 +435,18 @@ def g2(ctx, res):
               reason="true/false are not numbers: a bool only satisfies a type list that names bool")
     io = ctx.cls("InstanceOf").methods["_validate"]
     v = io.params[1].name
-    bare = [n for n in walk_own(io.body) if isinstance(n, ast.Call) and dotted(n.func) == "isinstance" and norm(n.args[0]) == v]
-    res.check(not bare and has(f"if not _is_instance({v}, self.params['types']):\n    raise ValidationError", io), io,
-              "if not _is_instance(value, self.params['types']): raise ValidationError",
+    vio = V(ctx, io)
+    bare = [n for n in walk_own(vio.body) if isinstance(n, ast.Call) and dotted(n.func) == "isinstance" and norm(n.args[0]) == v]
+    raising = [p for p in enumerate_paths(vio.body) if _raises_validation(p)]
+    verdict = None
+    if bare:
+        verdict = False
+    elif raising:
+        verdict = all(any(not isinstance(t, str) and norm(strip_not(t, pol)[0]) == f"_is_instance({v}, self.params['types'])"
+                          and strip_not(t, pol)[1] is False for t, pol in p.conds) for p in raising)
+        if not verdict and not any("_is_instance" in norm(t) for p in raising for t, pol in p.conds if not isinstance(t, str)):
+            verdict = None if not any("isinstance" in norm(t) for p in raising for t, pol in p.conds if not isinstance(t, str)) else False
+    res.judge(verdict, io, "if not _is_instance(value, self.params['types']): raise ValidationError",
               reason="the type validator uses the bool-aware instance test")
 
 
@@ -287,66 +455,65 @@ def g2(ctx, res):
 def g3(ctx, res):
     gi = ctx.func("Properties.__getitem__")
     key = gi.params[1].name
-    # the declared lookup is by source name
-    decl = None
-    for node, b in find("MV_p = {MV_x.source: MV_x for MV_x in self.props.values()}.get(MV_k, MV__)", gi):
-        if name_of(b["MV_k"]) == key:
-            decl = name_of(b["MV_p"])
-    for node, b in find("MV_p = {MV_x.source: MV_x for MV_x in self.props.values()}.get(MV_k)", gi):
-        if name_of(b["MV_k"]) == key:
-            decl = name_of(b["MV_p"])
-    res.check(decl is not None, gi, "prop = {prop.source: prop for prop in self.props.values()}.get(key)",
+    vb = V(ctx, gi)
+    DECL = [f"{{MV_x.source: MV_x for MV_x in self.props.values()}}.get({key}, None)",
+            f"{{MV_x.source: MV_x for MV_x in self.props.values()}}.get({key})",
+            f"next((MV_x for MV_x in self.props.values() if MV_x.source == {key}), None)"]
+    WRONG_DECL = [f"{{MV_x.name: MV_x for MV_x in self.props.values()}}.get({key}, None)", f"self.props.get({key}, None)",
+                  f"self.props.get({key})", f"{{MV_x.name: MV_x for MV_x in self.props.values()}}.get({key})"]
+    PAT = [f"list(self.pattern.getall({key}))", f"[MV_e for MV_e in self.pattern.getall({key})]"]
+    has_decl = any(has(pt, vb.body) for pt in DECL)
+    has_wrong = any(has(pt, vb.body) for pt in WRONG_DECL)
+    res.judge(True if has_decl and not has_wrong else (False if has_wrong else None), gi,
+              "prop = {prop.source: prop for prop in self.props.values()}.get(key)",
               reason="a key is matched against declared properties by their JSON (source) name")
-    pat = None
-    for node, b in find("MV_q = list(self.pattern.getall(MV_k))", gi):
-        if name_of(b["MV_k"]) == key:
-            pat = name_of(b["MV_q"])
-    res.check(pat is not None, gi, "pattern_elems = list(self.pattern.getall(key))", reason="all matching patterns are collected")
-    if decl is None or pat is None:
-        return
+    res.judge(True if any(has(pt, vb.body) for pt in PAT) else None, gi, "pattern_elems = list(self.pattern.getall(key))",
+              reason="all matching patterns are collected")
+    rec = atom_rec({"DECL": DECL, "PAT": PAT})
 
-    def rec(e):
-        t, pol = strip_not(e)
-        if norm(t) == decl:
-            return ("DECL", pol)
-        if norm(t) == pat:
-            return ("PAT", pol)
-        c = cmp_atom(e)
-        if c and c[0] == f"len({pat})":
-            if (c[1], c[2]) == ("==", "1"):
-                return ("ONE", True)
-            if (c[1], c[2]) in (("!=", "1"), (">", "1"), (">=", "2")):
-                return ("ONE", False)
-            if (c[1], c[2]) in (("==", "0"),):
-                return ("PAT", False)
-        return None
+    def is_decl(e):
+        return matches_any(e, DECL)
 
-    forms = {
-        "additional": [f"self.property(self.additional, {key})"],
-        "pattern1": [f"self.property({pat}[0], {key})"],
-        "patternN": [f"self.property(AllOf(*{pat}), {key})"],
-        "declared": [decl],
-    }
+    def is_pat(e):
+        return matches_any(e, PAT)
 
     def classify(p):
         if p.exit != "return" or p.exit_node.value is None:
             return p.exit
         e = p.exit_node.value
-        for label, pats in forms.items():
-            if any(norm(e) == x for x in pats):
-                return label
-        # composite: a local built as Property(AllOf(prop.element, *patterns), source=prop.source, required=prop.required)
+        b = match(_parse(f"self.property(MV_e, {key})"), e)
+        if b is not None:
+            inner = b["MV_e"]
+            if norm(inner) == "self.additional":
+                return "additional"
+            if isinstance(inner, ast.Subscript) and is_pat(inner.value) and norm(inner.slice) == "0":
+                return "pattern1"
+            b2 = match(_parse("AllOf(*MV_p)"), inner)
+            if b2 is not None and is_pat(b2["MV_p"]):
+                return "patternN"
+            return "other:" + norm(e)[:60]
+        if is_decl(e):
+            return "declared"
+        # composite built in a (mutated, hence not inlined) local
         if isinstance(e, ast.Name):
-            for node, b in find(f"{e.id} = MV_P(AllOf({decl}.element, *{pat}), source={decl}.source, required={decl}.required)", gi):
-                if has(f"{e.id}.bind(name={decl}.name, parent={decl}.parent)", gi):
-                    return "composite"
-        return "other:" + norm(e)
+            for node, bb in find(f"{e.id} = MV_P(AllOf(MV_d.element, *MV_q), **MV_kw)", vb.body):
+                kws = {k.arg: k.value for k in node.value.keywords}
+                if is_decl(bb["MV_d"]) and is_pat(bb["MV_q"]) and set(kws) == {"source", "required"} \
+                        and isinstance(kws["source"], ast.Attribute) and kws["source"].attr == "source" and is_decl(kws["source"].value) \
+                        and isinstance(kws["required"], ast.Attribute) and kws["required"].attr == "required" and is_decl(kws["required"].value):
+                    binds = find(f"{e.id}.bind(name=MV_n, parent=MV_p)", vb.body)
+                    if binds and all(isinstance(x["MV_n"], ast.Attribute) and x["MV_n"].attr == "name" and is_decl(x["MV_n"].value)
+                                     for _, x in binds):
+                        return "composite"
+            return "other-local:" + e.id
+        return "other:" + norm(e)[:60]
 
-    table, opaque = decision_table(gi.body, ["DECL", "PAT", "ONE"], rec, classify)
-    good = not opaque
+    table, opaque = decision_table(vb.body, ["DECL", "PAT", "PAT#ONE"], rec, classify)
+    good = True
+    bad = {}
     for (d, q, one), labels in table.items():
         if q is False and one is True:
-            continue  # len == 1 implies non-empty: infeasible combination
+            continue
         if not d and not q:
             want = {"additional"}
         elif not d and q:
@@ -357,59 +524,147 @@ def g3(ctx, res):
             want = {"composite"}
         if labels != want:
             good = False
-    res.check(good, gi, "(declared?, pattern match?) -> additional | patterns | declared | declared+patterns",
-              detail={"opaque": sorted(opaque), "table": {str(k): sorted(v) for k, v in table.items()}},
+            bad[str((d, q, one))] = sorted(labels)
+    wrong = any(lab.startswith("other") for labs in table.values() for lab in labs)
+    res.judge(True if good else (None if (opaque and not wrong and not bad) else (False if not opaque or wrong or bad else None)), gi,
+              "(declared?, pattern match?) -> additional | patterns | declared | declared+patterns",
+              detail={"opaque": sorted(opaque), "mismatches": bad},
               reason="the element a key is validated by is composed from exactly the schemas Draft 6 applies to it")
+
     # Items.__getitem__
     ii = ctx.func("Items.__getitem__")
     idx = ii.params[1].name
-    ok = has("if not isinstance(self.items, list):\n    return self.items", ii)
-    tries = [n for n in walk_own(ii.body) if isinstance(n, ast.Try)]
-    ok2 = False
-    if len(tries) == 1:
-        t = tries[0]
-        ok2 = has(f"return self.items[{idx}]", t.body) and len(t.handlers) == 1 and exc_handler_names(t.handlers[0]) == ["IndexError"] \
-            and has("return self.additional", t.handlers[0].body)
-    res.check(ok and ok2, ii, "not a list -> items; in range -> items[i]; beyond -> additional",
+    vi = V(ctx, ii)
+
+    def rec_i(e):
+        ia = isinstance_atom(e)
+        if ia and ia[0] == "self.items" and ia[1] == ["list"]:
+            return ("ISLIST", ia[2])
+        return None
+
+    def classify_i(p):
+        if p.exit != "return":
+            return p.exit
+        t = norm(p.exit_node.value)
+        inh = [s_[1] for s_ in p.stmts if isinstance(s_, tuple) and s_[0] == "handler"]
+        if inh:
+            return f"handler[{','.join(exc_handler_names(inh[0]))}]:{t}"
+        return t
+    table, opaque = decision_table(vi.body, ["ISLIST"], rec_i, classify_i)
+    want = {(True,): {f"self.items[{idx}]", "handler[IndexError]:self.additional"}, (False,): {"self.items"}}
+    res.judge(True if table == want else (None if opaque else False), ii, "not a list -> items; in range -> items[i]; beyond -> additional",
+              detail={"table": {str(k): sorted(x) for k, x in table.items()}, "opaque": sorted(opaque)},
               reason="index resolution follows items / tuple items / additionalItems")
+
     iinit = ctx.func("Items.__init__")
     ip = iinit.params[1].name
-    ok_items = False
-    for node, b in find(f"self.items = MV_a if MV_t else MV_b", iinit):
-        a = np_atom(b["MV_t"])
-        if a and a[0] == ip:
-            np_branch, other_branch = (b["MV_a"], b["MV_b"]) if a[1] else (b["MV_b"], b["MV_a"])
-            ok_items = norm(np_branch) == "Element()" and norm(other_branch) == ip
+    verdict = None
+    for st in walk_own(V(ctx, iinit).body):
+        if isinstance(st, ast.Assign) and any(norm(t) == "self.items" for t in st.targets):
+            tbl, opq = decision_table([ast.Return(value=st.value)], ["NP"],
+                                      lambda e: (("NP", np_atom(e)[1]) if np_atom(e) and np_atom(e)[0] == ip else None),
+                                      lambda p: norm(p.exit_node.value))
+            if not opq:
+                verdict = tbl == {(True,): {"Element()"}, (False,): {ip}}
+            elif any(norm(x) == ip for x in ast.walk(st.value) if isinstance(x, ast.Name)) and isinstance(st.value, (ast.BoolOp, ast.IfExp)):
+                verdict = False  # decided by something other than the not-passed marker (e.g. truthiness)
     if has(f"if isinstance({ip}, NotPassed):\n    self.items = Element()\nelse:\n    self.items = {ip}", iinit):
-        ok_items = True
-    res.check(ok_items, iinit, "self.items = Element() if items is not passed else items",
+        verdict = True
+    res.judge(verdict, iinit, "self.items = Element() if items is not passed else items",
               reason="only a MISSING items keyword means accept-anything; [] and the false schema are falsy but meaningful")
+
     for cname in ("Items", "Properties"):
         init = ctx.func(f"{cname}.__init__")
-        a = "additional"
-        ok = has(f"if isinstance({a}, bool):\n    self.additional = {{True: Element(), False: Nothing()}}[{a}]\nelse:\n    self.additional = {a}", init)
-        res.check(ok, init, "additional: True -> Element(), False -> Nothing(), element -> itself",
+        res.judge(_additional_normalised(ctx, init), init, "additional: True -> Element(), False -> Nothing(), element -> itself",
                   reason="boolean additional* means accept-anything / accept-nothing")
     pc = ctx.func("Properties.__contains__")
     k = pc.params[1].name
-    res.check(has(f"return bool(self[{k}].element != Nothing())", pc) or has(f"return self[{k}].element != Nothing()", pc), pc,
+    vpc = V(ctx, pc)
+    okc = has(f"return bool(self[{k}].element != Nothing())", vpc.body) or has(f"return self[{k}].element != Nothing()", vpc.body) \
+        or has(f"return not self[{k}].element == Nothing()", vpc.body)
+    wrongc = has(f"return self[{k}].element == Nothing()", vpc.body) or has(f"return bool(self[{k}].element == Nothing())", vpc.body)
+    res.judge(True if okc else (False if wrongc else None), pc,
               "key in properties iff its resolved element is not Nothing()", reason="a key is allowed unless it resolves to the false schema")
+
     ap = ctx.cls("AdditionalProperties").methods["_validate"]
     v = ap.params[1].name
     props = "self.params['__properties__']"
-    ok = has(f"if {props}.additional:\n    return", ap)
-    okb = False
-    for node, b in find(f"MV_b = {{MV_k for MV_k in {v} if MV_k not in {props}}}", ap):
-        okb = has(f"if {name_of(b['MV_b'])}:\n    raise ValidationError", ap)
-    okb = okb or has(f"if any(MV_k not in {props} for MV_k in {v}):\n    raise ValidationError", ap)
-    res.check(ok and okb, ap, "return early iff additional is truthy; otherwise raise iff some key is not contained",
+    vap = V(ctx, ap)
+    bad_keys = None
+    for b in builders(vap.body):
+        if norm(b.iter) in (v, f"{v}.keys()", f"list({v})") and b.kind in ("set", "list") and norm(b.elt) == norm(b.target) \
+                and b.guard_texts() == [f"not {norm(b.target)} in {props}"] or (
+                norm(b.iter) in (v, f"{v}.keys()") and b.guard_texts() == [f"{norm(b.target)} not in {props}"] and norm(b.elt) == norm(b.target)):
+            bad_keys = b
+    BAD = []
+    if bad_keys is not None:
+        if bad_keys.name:
+            BAD.append(bad_keys.name)
+        if isinstance(bad_keys.node, (ast.SetComp, ast.ListComp)):
+            BAD.append(norm(bad_keys.node))
+    BAD += [f"any((MV_k not in {props} for MV_k in {v}))"]
+    rec_ap = atom_rec({"ADDL": [f"{props}.additional"], "BAD": BAD})
+
+    def rec_ap2(e):
+        r = rec_ap(e)
+        if r:
+            return r
+        if match(_parse(f"all((MV_k in {props} for MV_k in {v}))"), strip_not(e)[0]) is not None:
+            return ("BAD", not strip_not(e)[1])
+        return None
+    table, opaque = decision_table(vap.body, ["ADDL", "BAD"], rec_ap2, lambda p: "raise" if _raises_validation(p) else "accept")
+    want = {(True, True): {"accept"}, (True, False): {"accept"}, (False, True): {"raise"}, (False, False): {"accept"}}
+    res.judge(True if table == want else (None if opaque else False), ap,
+              "return early iff additional is truthy; otherwise raise iff some key is not contained",
+              detail={"table": {str(k): sorted(x) for k, x in table.items()}, "opaque": sorted(opaque)},
               reason="additionalProperties: false rejects exactly the keys no declared or pattern property covers")
     pd = ctx.func("PatternDict.getall")
     k = pd.params[1].name
-    okp = False
-    for node, b in find(f"for MV_p, MV_v in self.items():\n    if re.search(MV_p, {k}):\n        yield MV_v", pd):
-        okp = True
-    res.check(okp, pd, "yield every value whose pattern re.search-matches the key", reason="every matching pattern contributes")
+    okp = None
+    for b in builders(V(ctx, pd).body):
+        if b.kind == "gen" and has("self.items()", b.iter) and isinstance(b.target, ast.Tuple) and len(b.target.elts) == 2:
+            pt, val = norm(b.target.elts[0]), norm(b.target.elts[1])
+            gt = b.guard_texts()
+            if norm(b.elt) == val and gt == [f"re.search({pt}, {k})"]:
+                okp = True
+            elif norm(b.elt) == val and any(g.startswith("re.") or "re." in g for g in gt):
+                okp = False
+    res.judge(okp, pd, "yield every value whose pattern re.search-matches the key", reason="every matching pattern contributes")
+
+
+def _additional_normalised(ctx, init):
+    """self.additional = {True: Element(), False: Nothing()}[additional] for
+    booleans, the value itself otherwise - possibly through a private helper."""
+    a = "additional"
+    targets = [init]
+    vb = V(ctx, init).body
+    # a helper h(additional) whose result is stored
+    for node, b in find("self.additional = MV_h(MV_a)", vb):
+        if norm(b["MV_a"]) == a and isinstance(b["MV_h"], ast.Name):
+            r = ctx.prog.resolve_in(init, b["MV_h"].id)
+            if r and r[0] == "func":
+                h = r[1]
+                hv = V(ctx, h).body
+                hp = h.params[0].name
+                tbl, opq = decision_table(hv, ["ISBOOL"], lambda e: (("ISBOOL", isinstance_atom(e)[2]) if isinstance_atom(e) and
+                                          isinstance_atom(e)[0] == hp and isinstance_atom(e)[1] == ["bool"] else None),
+                                          lambda p: norm(p.exit_node.value) if p.exit == "return" else p.exit)
+                if opq:
+                    return None
+                return tbl == {(True,): {f"{{True: Element(), False: Nothing()}}[{hp}]"}, (False,): {hp}}
+
+    def lab(p):
+        vals = [norm(s_.value) for s_ in p.stmts if isinstance(s_, ast.Assign) and any(norm(t) == "self.additional" for t in s_.targets)]
+        return vals[-1] if vals else "none"
+    tbl, opq = decision_table(vb, ["ISBOOL"], lambda e: (("ISBOOL", isinstance_atom(e)[2]) if isinstance_atom(e) and
+                              isinstance_atom(e)[0] == a and isinstance_atom(e)[1] == ["bool"] else None), lab)
+    want = {(True,): {f"{{True: Element(), False: Nothing()}}[{a}]"}, (False,): {a}}
+    if tbl == want:
+        return True
+    vals = {x for labs in tbl.values() for x in labs}
+    if any("Element()" in x or "Nothing()" in x for x in vals):
+        return False
+    return None
 
 
 # ---------------------------------------------------------------------- G4
@@ -420,7 +675,9 @@ def g4(ctx, res):
     outs = resn = errn = None
     for node, b in find(f"MV_o = [_attempt_schema(MV_e, {value}, {prop}) for MV_e in {elements}]", f):
         outs = name_of(b["MV_o"])
-    res.check(outs is not None, f, "outcomes = [_attempt_schema(element, value, property_) for element in elements]",
+    filtered = any(b.guards or norm(b.iter) != elements for b in builders(f.body) if has("_attempt_schema(MV__, MV__, MV__)", b.elt))
+    res.judge(True if outs is not None else (False if filtered else None), f,
+              "outcomes = [_attempt_schema(element, value, property_) for element in elements]",
               reason="every branch is attempted (no filter, no slice)")
     if outs is None:
         return
@@ -428,7 +685,7 @@ def g4(ctx, res):
         resn = name_of(b["MV_r"])
     for node, b in find(f"MV_r = [MV_x.error for MV_x in {outs} if MV_x.error]", f):
         errn = name_of(b["MV_r"])
-    res.check(resn is not None and errn is not None, f, "results = successes; errors = failures",
+    res.judge(True if (resn is not None and errn is not None) else None, f, "results = successes; errors = failures",
               reason="each outcome is counted as exactly one of success / failure")
     if resn is None or errn is None:
         return
@@ -461,7 +718,7 @@ def g4(ctx, res):
 
     atoms = ["ANY", "MANY", "ERR", "M_anyOf", "M_oneOf", "M_allOf"]
     table, opaque = decision_table(f.body, atoms, rec, classify)
-    good = not opaque
+    good = True
     first_result = f"return:{resn}[0]"
     bad = {}
     for values, labels in table.items():
@@ -481,32 +738,25 @@ def g4(ctx, res):
         if labels != want:
             good = False
             bad[str(a)] = sorted(labels)
-    res.check(good, f, "anyOf: >=1 success; oneOf: exactly 1; allOf: no failure; result = first success",
+    res.judge(True if good else (None if (opaque and not bad) else False), f, "anyOf: >=1 success; oneOf: exactly 1; allOf: no failure; result = first success",
               detail={"opaque": sorted(opaque), "mismatches": bad},
               reason="the composition verdict is the Draft-6 count of successful branches")
     a1 = ctx.func("_attempt_schema")
     e, v, pr = [p.name for p in a1.params[:3]]
-    tries = [n for n in walk_own(a1.body) if isinstance(n, ast.Try)]
-    ok = False
-    if len(tries) == 1:
-        t = tries[0]
-        ok = has(f"return Outcome({e}, result={e}({v}, {pr}), error=None)", t.body) and len(t.handlers) == 1 and \
-            exc_handler_names(t.handlers[0]) == ["TypeError", "ValidationError"] and t.handlers[0].name and \
-            has(f"return Outcome({e}, result=None, error={t.handlers[0].name})", t.handlers[0].body)
-    res.check(ok, a1, "success -> Outcome(result), (TypeError, ValidationError) -> Outcome(error)",
+    verdict = _try_semantics(
+        ctx, a1, [f"{e}({v}, {pr})"], {"return"}, {"return"},
+        success_ret=lambda x: match(_parse(f"Outcome({e}, result={e}({v}, {pr}), error=None)"), x) is not None
+        or match(_parse(f"Outcome({e}, {e}({v}, {pr}), None)"), x) is not None or match(_parse(f"Outcome({e}, result={e}({v}, {pr}))"), x) is not None,
+        failure_ret=lambda x, h: h.name is not None and (match(_parse(f"Outcome({e}, result=None, error={h.name})"), x) is not None
+                                                        or match(_parse(f"Outcome({e}, None, {h.name})"), x) is not None
+                                                        or match(_parse(f"Outcome({e}, error={h.name})"), x) is not None))
+    res.judge(verdict, a1, "success -> Outcome(result), (TypeError, ValidationError) -> Outcome(error)",
               reason="exactly the library's rejection exceptions count as a failed branch")
     nc = ctx.cls("Not").methods["construct"]
     v, pr = nc.params[1].name, nc.params[2].name
-    tries = [n for n in walk_own(nc.body) if isinstance(n, ast.Try)]
-    ok = False
-    if len(tries) == 1 and tries[0] in nc.body:
-        t = tries[0]
-        after = nc.body[nc.body.index(t) + 1:]
-        ok = has(f"self.element({v}, {pr})", t.body) and not any(isinstance(x, ast.Return) for x in ast.walk(ast.Module(body=t.body, type_ignores=[]))) \
-            and len(t.handlers) == 1 and exc_handler_names(t.handlers[0]) == ["TypeError", "ValidationError"] \
-            and has(f"return {v}", t.handlers[0].body) and len(after) == 1 and isinstance(after[0], ast.Raise) \
-            and "ValidationError" in norm(after[0])
-    res.check(ok, nc, "not: inner rejection -> accept the value; inner acceptance -> ValidationError",
+    verdict = _try_semantics(ctx, nc, [f"self.element({v}, {pr})"], {"raise"}, {"return"},
+                             failure_ret=lambda x, h: x is not None and norm(x) == v)
+    res.judge(verdict, nc, "not: inner rejection -> accept the value; inner acceptance -> ValidationError",
               reason="`not` rejects exactly when the inner schema accepts")
     cc = ctx.cls("CompositionElement").methods["construct"]
     v, pr = cc.params[1].name, cc.params[2].name
@@ -525,28 +775,30 @@ def g5(ctx, res):
     if create is None:
         return
     cv = create.params[0].name
-    loops = [n for n in create.body if isinstance(n, ast.For)]
+    cbody = V(ctx, create).body
+    loops = [n for n in cbody if isinstance(n, ast.For)]
     ok = False
     if len(loops) == 1:
         lp = loops[0]
         okloop = norm(lp.iter) == "self.validators" and not lp.orelse and \
             not any(isinstance(x, (ast.Break, ast.Continue, ast.Return, ast.If, ast.Try)) for x in ast.walk(lp)) and \
             has(f"{norm(lp.target)}({cv}, {prop})", lp.body)
-        idx = create.body.index(lp)
-        rest = create.body[idx + 1:]
+        idx = cbody.index(lp)
+        rest = cbody[idx + 1:]
         ok = okloop and len(rest) == 1 and has(f"return self.construct({cv}, {prop})", rest) and \
-            all(not isinstance(x, (ast.Return, ast.If)) for st in create.body[:idx] for x in ast.walk(st))
+            all(not isinstance(x, (ast.Return, ast.If)) for st in cbody[:idx] for x in ast.walk(st))
     res.check(ok, create, "for validator in self.validators: validator(value, property_); return self.construct(value, property_)",
               reason="all validators run (no break / filter / early return) before construction")
     # every normal exit of __call__ that hands back something other than the marker/raw default goes through create
-    rets = [n for n in walk_own(call.body) if isinstance(n, ast.Return)]
+    vcall = V(ctx, call)
+    rets = [n for n in walk_own(vcall.body) if isinstance(n, ast.Return)]
     bad = []
     for r in rets:
         e = r.value
         t = norm(e) if e is not None else "None"
         if t in (f"create({v})", "create(self.default)", "self.default", v):
             if t == v:
-                gs = flat_guards(Parents(call), r)
+                gs = flat_guards(Parents(vcall.body), r)
                 if not any((np_atom(tt, pp) or (None, None)) == (v, True) for tt, pp in gs):
                     bad.append(t + " (returned without validation outside the not-passed case)")
             continue
@@ -575,19 +827,21 @@ def g5(ctx, res):
               reason="members of arrays and objects are validated by recursion through the resolution helpers")
     new = ctx.func("Object.__new__")
     cls, v, prop = [p.name for p in new.params[:3]]
-    loops = [n for n in new.body if isinstance(n, ast.For)]
+    nbody_ = V(ctx, new).body
+    loops = [n for n in nbody_ if isinstance(n, ast.For)]
     ok = False
     if len(loops) == 1:
         lp = loops[0]
         okloop = norm(lp.iter) == f"{cls}.validators" and not lp.orelse and \
             not any(isinstance(x, (ast.Break, ast.Continue, ast.Return, ast.If, ast.Try)) for x in ast.walk(lp)) and \
             has(f"{norm(lp.target)}({v}, {prop})", lp.body)
-        rest = new.body[new.body.index(lp) + 1:]
+        rest = nbody_[nbody_.index(lp) + 1:]
         ok = okloop and len(rest) == 1 and has(f"return object.__new__({cls})", rest)
     res.check(ok, new, "for validator in cls.validators: validator(value, property_); return object.__new__(cls)",
               reason="all object validators run before the instance is created")
     init = ctx.func("Object.__init__")
-    res.check(has("type(self).__properties__(MV_v).items()", init) or has("self.__class__.__properties__(MV_v).items()", init), init,
+    vinit = V(ctx, init).body
+    res.check(has("type(self).__properties__(MV_v).items()", vinit) or has("self.__class__.__properties__(MV_v).items()", vinit), init,
               "for attr_name, attr_value in type(self).__properties__(value).items()",
               reason="the instance is populated from the per-key resolved and validated members")
     pcall = ctx.func("Properties.__call__")
@@ -641,14 +895,15 @@ def g6(ctx, res):
         if t == v:
             return "value as is"
         return "other:" + t
-    table, opaque = _default_table(call, v, "self.default", label_call, res, "Element.__call__")
+    table, opaque = _default_table(V(ctx, call), v, "self.default", label_call, res, "Element.__call__")
     want = {
         (True, False): {"build(default)", "raw default (handler)"},
         (True, True): {"value as is"},
         (False, True): {"build(value)"},
         (False, False): {"build(value)"},
     }
-    res.check(not opaque and table == want, call,
+    truthy_misuse = bool(set(opaque) & {v, "self.default"})
+    res.judge(True if table == want else (None if (opaque and not truthy_misuse) else False), call,
               "NP(value) & default -> try build(default) else raw default; NP(value) & no default -> marker; value -> build(value)",
               detail={"opaque": sorted(opaque), "table": {str(k): sorted(x) for k, x in table.items()}},
               reason="the default decision of Element.__call__")
@@ -672,14 +927,15 @@ def g6(ctx, res):
         return "other:" + t
 
     # strip the isinstance(value, cls) pass-through (sibling difference, checked by P5)
-    body = [st for st in new.body if not (isinstance(st, ast.If) and norm(st.test) == f"isinstance({v}, {cls})")]
+    body = [st for st in V(ctx, new).body if not (isinstance(st, ast.If) and norm(st.test) == f"isinstance({v}, {cls})")]
 
     class _F:  # minimal stand-in with a body, for decision_table
         pass
     fake = _F()
     fake.body = body
     table2, opaque2 = _default_table(fake, v, f"{cls}.default", label_new, res, "Object.__new__")
-    res.check(not opaque2 and table2 == want, new, "same default decision as Element.__call__ (sibling cross-check)",
+    truthy_misuse2 = bool(set(opaque2) & {v, f"{cls}.default"})
+    res.judge(True if table2 == want else (None if (opaque2 and not truthy_misuse2) else False), new, "same default decision as Element.__call__ (sibling cross-check)",
               detail={"opaque": sorted(opaque2), "table": {str(k): sorted(x) for k, x in table2.items()}},
               reason="Object.__new__ realises the same three-way decision")
     tries = [n for n in walk_own(new.body) if isinstance(n, ast.Try)]
@@ -689,7 +945,7 @@ def g6(ctx, res):
     init = ctx.func("Object.__init__")
     v = init.params[1].name
     ok = False
-    for n in init.body:
+    for n in V(ctx, init, keep=(v,)).body:
         if isinstance(n, ast.If) and len(n.body) == 1 and has(f"{v} = self.default", n.body) and not n.orelse:
             good = True
             for a in (True, False):
@@ -715,20 +971,26 @@ def g6(ctx, res):
 @rule("G7", "required is waived exactly for defaulted properties, and Maybe[] is dropped exactly for required-or-defaulted")
 def g7(ctx, res):
     rq = ctx.cls("_PropertyDict").props["required"]["get"]
-    ok = False
-    for n in walk_own(rq.body):
-        if isinstance(n, ast.ListComp) and len(n.generators) == 1:
-            g = n.generators[0]
-            if has("self.items()", g.iter) and isinstance(g.target, ast.Tuple) and len(g.target.elts) == 2:
-                name, prop = norm(g.target.elts[0]), norm(g.target.elts[1])
-                elt_ok = norm(n.elt) == f"{prop}.source or {name}"
-                conds = []
-                for c in g.ifs:
-                    conds += c.values if isinstance(c, ast.BoolOp) and isinstance(c.op, ast.And) else [c]
-                has_req = any(norm(c) == f"{prop}.required" for c in conds)
-                has_np = any((np_atom(c) or (None, None)) == (f"{prop}.element.default", True) for c in conds)
-                ok = elt_ok and has_req and has_np and len(conds) == 2
-    res.check(ok, rq, "[prop.source or name for name, prop in self.items() if prop.required and NP(prop.element.default)]",
+    vb = V(ctx, rq).body
+    verdict = None
+    found = []
+    for b in builders(vb):
+        if not (has("self.items()", b.iter) and isinstance(b.target, ast.Tuple) and len(b.target.elts) == 2 and b.kind in ("list", "gen")):
+            continue
+        name, prop = norm(b.target.elts[0]), norm(b.target.elts[1])
+        conds = []
+        for t, pol in b.guards:
+            conds += flatten_guard(t, pol)
+        has_req = any(norm(strip_not(t, pol)[0]) == f"{prop}.required" and strip_not(t, pol)[1] for t, pol in conds)
+        has_np = any((np_atom(t, pol) or (None, None)) == (f"{prop}.element.default", True) for t, pol in conds)
+        elt_ok = norm(b.elt) in (f"{prop}.source or {name}",)
+        found.append({"guards": b.guard_texts(), "elt": norm(b.elt)})
+        if len(conds) == 2 and has_req and has_np and elt_ok:
+            verdict = True
+        elif verdict is None:
+            verdict = False
+    res.judge(verdict, rq, "[prop.source or name for name, prop in self.items() if prop.required and NP(prop.element.default)]",
+              detail={"found": found},
               reason="a property is demanded iff it is required and declares no default; by its JSON name")
     an = ctx.cls("_Property").props["annotation"]["get"]
 
@@ -746,15 +1008,15 @@ def g7(ctx, res):
         t = norm(p.exit_node.value)
         if t == "self.element.annotation":
             return "bare"
-        if t == "f'Maybe[{self.element.annotation}]'":
+        if t in ("f'Maybe[{self.element.annotation}]'", "'Maybe[' + self.element.annotation + ']'", "'Maybe[{}]'.format(self.element.annotation)"):
             return "maybe"
         return "other:" + t
-    table, opaque = decision_table(an.body, ["REQ", "NODEFAULT"], rec, classify)
-    good = not opaque
+    table, opaque = decision_table(V(ctx, an).body, ["REQ", "NODEFAULT"], rec, classify)
+    good = True
     for (req, nodef), labels in table.items():
         want = {"bare"} if (req or not nodef) else {"maybe"}
         good = good and labels == want
-    res.check(good, an, "annotation omits Maybe[...] iff required or defaulted",
+    res.judge(True if good else (None if opaque else False), an, "annotation omits Maybe[...] iff required or defaulted",
               detail={"opaque": sorted(opaque), "table": {str(k): sorted(v) for k, v in table.items()}},
               reason="'always present' is annotated exactly for the properties the model always fills")
 
@@ -782,8 +1044,9 @@ def g8(ctx, res):
         if t == f"self._callable_register[{fs}]({v})":
             return "checker" + ("+warn" if warned else "")
         return "other:" + t
-    table, opaque = decision_table(call.body, ["REG"], rec, classify)
-    res.check(not opaque and table == {(True,): {"checker"}, (False,): {"accept+warn"}}, call,
+    table, opaque = decision_table(V(ctx, call).body, ["REG"], rec, classify)
+    good8 = table == {(True,): {"checker"}, (False,): {"accept+warn"}}
+    res.judge(True if good8 else (None if opaque else False), call,
               "unregistered -> warnings.warn(...) and True; registered -> register[name](value)",
               detail={"opaque": sorted(opaque), "table": {str(k): sorted(x) for k, x in table.items()}},
               reason="an unregistered format never rejects and always warns; a registered one decides")
@@ -829,7 +1092,9 @@ def g9(ctx, res):
              f"UNSUPPORTED_SCHEMA_KEYWORDS.intersection({s})", f"set({s}).intersection(UNSUPPORTED_SCHEMA_KEYWORDS)",
              f"any(MV_k in {s} for MV_k in UNSUPPORTED_SCHEMA_KEYWORDS)",
              f"not UNSUPPORTED_SCHEMA_KEYWORDS.isdisjoint({s})", f"not set({s}).isdisjoint(UNSUPPORTED_SCHEMA_KEYWORDS)"]
-    body = pe.body
+    from .norm import inline_procedures
+    import copy as _copy
+    body = inline_procedures(_copy.deepcopy([st for st in pe.body]), pe, ctx.prog)
     for i, st in enumerate(body):
         if isinstance(st, ast.If) and any(match(_parse(t), st.test) is not None for t in tests):
             raises = [x for x in st.body if isinstance(x, ast.Raise) and x.exc is not None and "FeatureNotImplementedError" in norm(x.exc)]
@@ -936,36 +1201,45 @@ def g10(ctx, res):
                 if isinstance(t, ast.Attribute) and norm(t.value) == "self":
                     attrs.add(t.attr)
     attrs.discard("properties")
-    lam = None
-    for g in eq.lambdas:
-        lam = g
+    # the attribute view compared on both sides: a lambda, a nested def or a module-level helper H with H(self) == H(other)
+    candidates = [g for g in eq.lambdas] + list(eq.nested.values())
+    for node, b in find(f"MV_h(self) == MV_h({other})", eq):
+        if isinstance(b["MV_h"], ast.Name):
+            r = ctx.prog.resolve_in(eq, b["MV_h"].id)
+            if r and r[0] == "func":
+                candidates.append(r[1])
+    keepers = None  # list of (test, polarity, var)
+    for g in candidates:
+        for bld in builders(V(ctx, g).body):
+            if bld.kind == "dict" and has("vars(MV_x).items()", bld.iter) and isinstance(bld.target, ast.Tuple):
+                var = norm(bld.target.elts[0])
+                conds = []
+                for t, pol in bld.guards:
+                    conds += flatten_guard(t, pol)
+                keepers = (conds, var)
+    if keepers is None and has(f"return vars(self) == vars({other})", eq):
+        keepers = ([], "k")
+    if keepers is None:
+        raise AnalysisError("Element.__eq__: the attribute filter is no longer recognisable")
+    conds, var = keepers
+
+    def kept(name):
+        for t, pol in conds:
+            v_ = _eval_name_filter(t, var, name)
+            if v_ is None:
+                return None
+            if v_ != pol:
+                return False
+        return True
     filt = None
-    var = None
-    if lam is not None:
-        for n in ast.walk(lam.node):
-            if isinstance(n, ast.DictComp) and len(n.generators) == 1 and n.generators[0].ifs:
-                g = n.generators[0]
-                if has("vars(MV_x).items()", g.iter) and isinstance(g.target, ast.Tuple):
-                    var = norm(g.target.elts[0])
-                    filt = g.ifs[0] if len(g.ifs) == 1 else ast.BoolOp(op=ast.And(), values=list(g.ifs))
-            elif isinstance(n, ast.DictComp) and len(n.generators) == 1 and not n.generators[0].ifs:
-                g = n.generators[0]
-                if has("vars(MV_x).items()", g.iter):
-                    var, filt = "k", ast.Constant(value=True)
-    if lam is None or var is None:
-        if has(f"return vars(self) == vars({other})", eq):
-            filt, var = ast.Constant(value=True), "k"
-        else:
-            raise AnalysisError("Element.__eq__: the attribute filter is no longer recognisable")
     for a in sorted(attrs):
-        keep = True if isinstance(filt, ast.Constant) else _eval_name_filter(filt, var, a)
+        keep = kept(a)
         if keep is None:
-            raise AnalysisError(f"Element.__eq__: cannot evaluate the attribute filter `{norm(filt)}` for {a!r}")
+            raise AnalysisError(f"Element.__eq__: cannot evaluate the attribute filter for {a!r}")
         res.check(keep, eq, f"attribute {a} is compared", reason="equality inspects every attribute a constructor stores")
     res.floor("configuration_attributes", len(attrs), 28)
-    if lam is not None:
-        res.check(has(f"return {norm(lam.node) if False else 'MV_f'}(self) == MV_f({other})", eq), eq,
-                  "return pub_vars(self) == pub_vars(other)", reason="the filtered attribute dicts are compared for equality")
+    res.judge(True if (has(f"return MV_f(self) == MV_f({other})", eq) or has(f"return vars(self) == vars({other})", eq)) else None, eq,
+              "return pub_vars(self) == pub_vars(other)", reason="the filtered attribute dicts are compared for equality")
     for c in element_family(ctx):
         for dunder in ("__eq__", "__ne__", "__hash__"):
             if dunder in c.methods and c.name not in ("Element", "ObjectMeta"):
@@ -1004,18 +1278,38 @@ def g11(ctx, res):
               reason="the cycle refusal dominates the first yield")
     if raise_idx is None:
         return
-    cname = norm(cyc_test)
-    okc = False
-    for node, b in find(f"{cname} = sorted((MV_n for MV_n in MV_d if has_cycle(MV_n)))", od):
+    vod = V(ctx, od, keep=("object_dependencies", "object_classes")).body
+    CYCLIC = ["has_cycle(MV_n)", "MV_n in object_dependencies[MV_n]", "MV_n in MV_deps"]
+
+    def cyclic_builder(b):
+        gt = b.guards
+        if len(gt) != 1 or not gt[0][1]:
+            return False
+        t = gt[0][0]
+        over_items = has("object_dependencies.items()", b.iter) and isinstance(b.target, ast.Tuple)
+        over_keys = norm(b.iter) in ("object_dependencies", "object_dependencies.keys()", "list(object_dependencies)")
+        if over_keys:
+            n_ = norm(b.target)
+            return norm(t) in (f"has_cycle({n_})", f"{n_} in object_dependencies[{n_}]") and norm(b.elt) == n_
+        if over_items:
+            n_, d_ = norm(b.target.elts[0]), norm(b.target.elts[1])
+            return norm(t) in (f"{n_} in {d_}", f"has_cycle({n_})", f"{n_} in object_dependencies[{n_}]") and norm(b.elt) == n_
+        return False
+    okc = None
+    cyc_text = norm(cyc_test)
+    for b in builders(od.body):
+        if cyclic_builder(b):
+            if b.name and b.name == cyc_text:
+                okc = True
+            elif b.node is not None and any(x is b.node for x in ast.walk(cyc_test)):
+                okc = True
+    if okc is None and has("any((has_cycle(MV_n) for MV_n in object_dependencies))", cyc_test):
         okc = True
-    for node, b in find(f"{cname} = [MV_n for MV_n in MV_d if has_cycle(MV_n)]", od):
-        okc = True
-    if not okc:
-        okc = has(f"any(has_cycle(MV_n) for MV_n in MV_d)", cyc_test)
-    res.check(okc, od, "cycles = every name for which has_cycle(name)", reason="every class is tested for self-reachability")
+    res.judge(okc, od, "cycles = every name for which has_cycle(name)", reason="every class is tested for self-reachability")
     hc = od.nested.get("has_cycle")
-    res.check(hc is not None and has(f"return {hc.params[0].name} in object_dependencies[{hc.params[0].name}]", hc), od,
-              "has_cycle(name): name in object_dependencies[name]", reason="a class is cyclic iff it is among its own transitive dependencies")
+    if hc is not None:
+        res.judge(True if has(f"return {hc.params[0].name} in object_dependencies[{hc.params[0].name}]", hc) else None, od,
+                  "has_cycle(name): name in object_dependencies[name]", reason="a class is cyclic iff it is among its own transitive dependencies")
     okd = False
     for node, b in find("object_dependencies = {MV_c.__name__: [MV_d.__name__ for MV_d in get_children(MV_c) if isinstance(MV_d, ObjectMeta)] for MV_c in MV_cs}", od):
         okd = True
@@ -1025,8 +1319,17 @@ def g11(ctx, res):
     nxt = od.nested.get("_next")
     res.check(pop is not None and has(f"del object_dependencies[{pop.params[0].name}]", pop), od, "del object_dependencies[name]",
               reason="each emitted class is removed, so the loop makes progress")
-    res.check(nxt is not None and has("return pop_name(MV_n)", nxt) and has("filter(lambda MV_a: not MV_a[1], object_dependencies.items())", nxt), od,
-              "_next(): a class with no remaining dependencies", reason="only a class whose dependencies were all emitted is emitted")
+    okn = None
+    if nxt is not None:
+        vn = V(ctx, nxt).body
+        forms = ["return pop_name(next(map(lambda MV_a: MV_a[0], filter(lambda MV_b: not MV_b[1], object_dependencies.items()))))",
+                 "return pop_name(next((MV_n for MV_n, MV_d in object_dependencies.items() if not MV_d)))",
+                 "return pop_name(next((MV_n for MV_n in object_dependencies if not object_dependencies[MV_n])))"]
+        if any(has(fm, vn) for fm in forms):
+            okn = True
+        elif has("return pop_name(next(iter(object_dependencies)))", vn):
+            okn = False
+    res.judge(okn, od, "_next(): a class with no remaining dependencies", reason="only a class whose dependencies were all emitted is emitted")
     whiles = [n for n in walk_own(od.body) if isinstance(n, ast.While)]
     res.check(len(whiles) == 1 and has("yield _next()", whiles[0].body), od, "while True: yield _next()", reason="classes are emitted one at a time")
     goc = ctx.func("get_object_classes")
@@ -1072,7 +1375,7 @@ def g12(ctx, res):
               reason="every member of the merged dict is rebuilt: declared ones under their Python name, others under their JSON name")
     init = ctx.func("Object.__init__")
     ok3 = False
-    for n in walk_own(init.body):
+    for n in walk_own(V(ctx, init, keep=(init.params[1].name,)).body):
         if isinstance(n, ast.For) and isinstance(n.target, ast.Tuple) and len(n.target.elts) == 2:
             an, av = norm(n.target.elts[0]), norm(n.target.elts[1])
             store = [st for st in n.body if isinstance(st, ast.Assign) and norm(st.targets[0]) == f"self._dict[{an}]" and norm(st.value) == av]
